@@ -79,4 +79,15 @@ theorem C15_general (c : Cls) (hc : ClsOK c) (T : Table) (hok : indexOK c T = tr
     exact hok.2
   exact C04_alone c hc T hu e he n hn hw spelling hs
 
+/-- … and validates without errors: non-strictly always, strictly when the entry is not an exception. -/
+theorem C15_general_validates (c : Cls) (hc : ClsOK c) (T : Table) (hok : indexOK c T = true) (e : Entry) (he : e ∈ T)
+    (n : Str) (hn : (n, symVal e) ∈ entryAdds c e) (hw : wordsOf c n ≠ []) (spelling : Str)
+    (hs : wordsOf c spelling = wordsOf c n) (strict : Bool) (hstrict : strict = true → e.exc = false) :
+    validateFull c T strict spelling = .info ⟨some e.key, 0, []⟩ := by
+  have hu : namesUniqueB c T = true := by
+    unfold indexOK at hok
+    simp only [Bool.and_eq_true] at hok
+    exact hok.2
+  exact C04_alone_validates c hc T hu e he n hn hw spelling hs strict hstrict
+
 end LE
